@@ -372,7 +372,8 @@ func (b *OnDemandBlockTaskPool) goroutine(id int) {
 			b.mutex.Lock()
 			// log.Println("id", id, "totalGo-mem", b.totalGo-b.timeoutGroup.size(), "totalGo", b.totalGo, "mem", b.timeoutGroup.size())
 			noTasksToExecute := len(b.queue) == 0 || int32(len(b.queue)) < b.totalGo
-			if b.coreGo < b.totalGo && b.totalGo <= b.maxGo && noTasksToExecute {
+			if b.coreGo < b.totalGo && b.totalGo <= b.maxGo && noTasksToExecute &&
+				b.initGo < b.totalGo-b.timeoutGroup.size() {
 				// 当前协程属于(coreGo,maxGo]区间，发现没有任务可以执行故直接退出
 				// 注意：一定要在此处减1才能让此刻等待在mutex上的其他协程被正确地划分区间
 				b.totalGo--
